@@ -100,6 +100,36 @@ def main() -> None:
             t.start()
         for t in ts:
             t.join()
+    elif job["mode"] == "addr":
+        # address re-use: scan a, release it and its tree, then scan an equally long b that the allocator places at a's old
+        # address (asked repeatedly until it does); what was remembered about a must not be taken for knowledge about b
+        import gc
+
+        cfg = list(job["cfgs"])[0]
+        shared = f"{proc}/{cfg}/reused"
+        new(shared, cfg)
+        md = scanners[shared]
+        for xa, xb in job["pairs"]:
+            hit = False
+            for _try in range(400):
+                a = bytes.fromhex(xa)
+                ida = id(a)
+                md.scan(a, 10)
+                del a
+                gc.collect()
+                b = bytes.fromhex(xb)
+                if id(b) == ida:
+                    hit = True
+                    emit({"ev": "Begin", "thread": f"{proc}/main", "inst": shared, "input": xb, "k": 10, "view": "tree"})
+                    try:
+                        dg = digest(md.scan(b, 10))
+                    except Exception:  # noqa: BLE001
+                        dg = "EXC"
+                    emit({"ev": "End", "thread": f"{proc}/main", "digest": dg})
+                    del b
+                    break
+                del b
+            emit({"ev": "Note", "pair": xb[:16], "address_reused": hit})
     for e in events:
         print(json.dumps(e))
 
